@@ -213,6 +213,10 @@ pub enum Verdict {
 
 pub trait Stages: Sync {
     fn n_stages(&self) -> u32;
+    /// The order in which the stages run (default: by index).
+    fn order(&self) -> Vec<u32> {
+        (0..self.n_stages()).collect()
+    }
     fn stage_name(&self, stage: u32) -> String;
     fn stage_len(&self, stage: u32) -> u64;
     /// Runs one case; may panic (caught by the pool), hang (watchdog) or request a huge allocation (guard).
@@ -350,10 +354,40 @@ fn worker_loop<S: Stages>(st: &S, slot: &Slot, log: &Log, stage: u32, start: u64
     slot.wstate.store(W_DONE, Release);
 }
 
+/// Sends the process's stderr to `path` (truncated): the parent reads it when the process dies (the Rust runtime
+/// reports a stack overflow there before it aborts).
+fn redirect_stderr(path: &std::path::Path) {
+    use std::os::unix::ffi::OsStrExt;
+    let Ok(c) = std::ffi::CString::new(path.as_os_str().as_bytes()) else { return };
+    unsafe {
+        let fd = libc::open(c.as_ptr(), libc::O_CREAT | libc::O_WRONLY | libc::O_TRUNC | libc::O_APPEND, 0o600);
+        if fd >= 0 {
+            libc::dup2(fd, 2);
+            libc::close(fd);
+        }
+    }
+}
+
+pub const STACK_OVERFLOW_MSG: &str = "has overflowed its stack";
+
+/// How a process died, from its wait status and what it wrote to stderr: a stack overflow (the runtime's guard-page
+/// handler prints "thread '..' has overflowed its stack" and aborts) is its own outcome.
+fn death_outcome(status: i32, stderr_path: &std::path::Path) -> (String, String) {
+    let err = std::fs::read(stderr_path).map(|b| String::from_utf8_lossy(&b[b.len().saturating_sub(4096)..]).into_owned()).unwrap_or_default();
+    let sig = if libc::WIFSIGNALED(status) { signal_name(libc::WTERMSIG(status)).to_string() } else { format!("exit status {}", libc::WEXITSTATUS(status)) };
+    if let Some(line) = err.lines().find(|l| l.contains(STACK_OVERFLOW_MSG)).or_else(|| err.lines().find(|l| l.contains("fatal runtime error: stack overflow"))) {
+        return ("outcome=abort cause=stack-overflow".into(), format!("stack overflow: the process wrote \"{}\" to stderr and died ({sig})", line.trim()));
+    }
+    let how = if libc::WIFSIGNALED(status) { format!("crash signal={sig}") } else { format!("exit status={}", libc::WEXITSTATUS(status)) };
+    let tail: String = err.lines().rev().take(2).collect::<Vec<_>>().join(" | ");
+    (format!("outcome={how}"), format!("the process died ({how}){}", if tail.is_empty() { String::new() } else { format!("; stderr: {tail}") }))
+}
+
 fn child_main<S: Stages>(st: &'static S, slot: &'static Slot, log_path: PathBuf) -> ! {
     // do not outlive the parent
     unsafe { libc::prctl(libc::PR_SET_PDEATHSIG, libc::SIGKILL) };
     SLOT.store(slot as *const Slot as *mut Slot, Release);
+    redirect_stderr(&log_path.with_extension("err"));
     let file = std::fs::OpenOptions::new().create(true).append(true).open(&log_path).unwrap_or_else(|_| unsafe { libc::_exit(90) });
     let log: &'static Log = Box::leak(Box::new(Log { file: Mutex::new(file) }));
     let classes: &'static Mutex<std::collections::HashSet<u64>> = Box::leak(Box::new(Mutex::new(Default::default())));
@@ -523,10 +557,8 @@ pub fn run_stages<S: Stages>(st: &'static S, workers: usize, dir: &std::path::Pa
         Child { pid, seen: None, cpu0: None, chunk: None }
     };
 
-    for stage in 0..st.n_stages() {
-        if !stage_filter(stage) {
-            continue;
-        }
+    let order: Vec<u32> = st.order().into_iter().filter(|s| stage_filter(*s)).collect();
+    for &stage in &order {
         let t0 = Instant::now();
         let total = st.stage_len(stage);
         let name = st.stage_name(stage);
@@ -570,17 +602,16 @@ pub fn run_stages<S: Stages>(st: &'static S, workers: usize, dir: &std::path::Pa
                         } else {
                             // died while running a case
                             let case = slot.cur.load(Relaxed);
-                            let how = if libc::WIFSIGNALED(status) {
-                                format!("crash signal={}", signal_name(libc::WTERMSIG(status)))
-                            } else {
-                                format!("exit status={}", libc::WEXITSTATUS(status))
-                            };
+                            let (outcome, how) = death_outcome(status, &dir.join(format!("worker-{i}.err")));
                             let (decoded, _, payload) = st.describe(stg, case);
+                            if std::env::var("C15_DEBUG_DEATHS").is_ok() {
+                                eprintln!("[death] stage={stg} case={case} {outcome}");
+                            }
                             extra.push(Finding {
-                                fingerprint: format!("{} outcome={how}", st.fp_prefix(stg, case)),
+                                fingerprint: format!("{} {outcome}", st.fp_prefix(stg, case)),
                                 decoded,
                                 expected: "Ok or io::Error".into(),
-                                observed: format!("the worker process died ({how}) while executing this case (stack overflow or abort)"),
+                                observed: format!("while executing this case in a pool worker: {how}"),
                                 payload,
                                 stage: stg,
                                 case,
@@ -795,12 +826,8 @@ pub fn run_stages<S: Stages>(st: &'static S, workers: usize, dir: &std::path::Pa
     // collect the worker logs
     let stage_pos: BTreeMap<u32, usize> = {
         let mut m = BTreeMap::new();
-        let mut k = 0;
-        for stage in 0..st.n_stages() {
-            if stage_filter(stage) {
-                m.insert(stage, k);
-                k += 1;
-            }
+        for (k, &stage) in order.iter().enumerate() {
+            m.insert(stage, k);
         }
         m
     };
@@ -850,12 +877,15 @@ pub fn run_isolated(f: impl FnOnce() -> String, deadline: Duration) -> Result<St
     if unsafe { libc::pipe(fds.as_mut_ptr()) } != 0 {
         return Err("pipe failed".into());
     }
+    static ISO: AtomicU64 = AtomicU64::new(0);
+    let err_path = std::env::temp_dir().join(format!("vs-c15-iso-{}-{}.err", std::process::id(), ISO.fetch_add(1, Relaxed)));
     let pid = unsafe { libc::fork() };
     if pid < 0 {
         return Err("fork failed".into());
     }
     if pid == 0 {
         unsafe { libc::close(fds[0]) };
+        redirect_stderr(&err_path);
         let out = f();
         let b = out.as_bytes();
         let mut off = 0;
@@ -898,16 +928,17 @@ pub fn run_isolated(f: impl FnOnce() -> String, deadline: Duration) -> Result<St
                 libc::waitpid(pid, &mut status, 0);
                 libc::close(fds[0]);
             }
+            let _ = std::fs::remove_file(&err_path);
             return Err("outcome=hang".into());
         }
         std::thread::sleep(Duration::from_millis(1));
     }
     unsafe { libc::close(fds[0]) };
-    if libc::WIFSIGNALED(status) {
-        return Err(format!("outcome=crash signal={}", signal_name(libc::WTERMSIG(status))));
-    }
-    if libc::WEXITSTATUS(status) != 0 {
-        return Err(format!("outcome=exit status={}", libc::WEXITSTATUS(status)));
+    let died = libc::WIFSIGNALED(status) || libc::WEXITSTATUS(status) != 0;
+    let outcome = if died { Some(death_outcome(status, &err_path).0) } else { None };
+    let _ = std::fs::remove_file(&err_path);
+    if let Some(o) = outcome {
+        return Err(o);
     }
     Ok(String::from_utf8_lossy(&out).into_owned())
 }
